@@ -123,6 +123,56 @@ example (c : Cfg) (ctx : Ctx) : Conforms c (progOf exCompiled) 0 (lsize exCompil
     ⟨fun i w h => by simp at h, fun o h => by cases h⟩ ex_floats (progOf exCompiled) [] []
     (by simp [progOf, Compiled.bytes]) (PoolExt.refl _) ex_fits c (fun h => by cases h) (ex_good c) ctx
 
+/-! ### why `AliasFree` is there: the constant pool identifies floats that are `==`
+
+Known finding `c01:negative-zero-constant-aliased` (exhibited on the real code by harness/c01.go: a ConstExpr
+function returning `-0.0` next to a literal `0.0`).  Lean's `Float` operations are opaque to the kernel, so the
+IEEE fact `0.0 == -0.0` enters as the hypothesis `(a == b) = true`: whenever it holds the compiled program
+pushes constant 0 twice — the run yields `[a, a]` — while the language definition yields `[a, b]`. -/
+
+/-- the tree `[a, b]` of two float constants (as a ConstExpr function leaves them) -/
+def twoFloats (a b : Float) : Node := .array {} [.const {} (.f64 a), .const {} (.f64 b)]
+
+theorem negzero_alias_witness (a b : Float) (hab : (a == b) = true) :
+    compileProgram {} (twoFloats a b) =
+      .ok ⟨[li {} .push 0, li {} .push 0, li {} .push 1, li {} .array], #[.f64 a, .int .int 2]⟩ ∧
+    ∀ sc : SCfg, 2 < sc.budget → (Spec.run sc none (twoFloats a b)).1 = .ok (.arr .iface [.f64 a, .f64 b]) := by
+  constructor
+  · have h1 : mkConst (.f64 a) {} = .ok (0, ⟨#[.f64 a], []⟩) := rfl
+    have h2 : mkConst (.f64 b) ⟨#[.f64 a], []⟩ = .ok (0, ⟨#[.f64 a], []⟩) := by
+      simp [mkConst, hashable, Pool.findIdx, constKeyEq, hab, List.range, List.range.loop]
+    have h3 : mkConst (.int .int 2) ⟨#[.f64 a], []⟩ = .ok (1, ⟨#[.f64 a, .int .int 2], []⟩) := by
+      simp [mkConst, hashable, Pool.findIdx, constKeyEq, List.range, List.range.loop]
+    simp [compileProgram, twoFloats, compileNode_array, compileList_cons, compileList_nil, compileNode_const, h1, h2, h3,
+      bind, Except.bind, pure, Except.pure]
+  · intro sc hb
+    have he : eval sc [] (twoFloats a b) {} =
+        (.ok (.arr .iface [.f64 a, .f64 b]), ⟨2, 2, []⟩) := by
+      unfold twoFloats
+      rw [eval_array, SM.bind_apply, evalList_cons _ _ _ _ rfl, SM.bind_apply, eval_const, SM.pure_apply]
+      simp only []
+      rw [SM.bind_apply, evalList_cons _ _ _ _ rfl, SM.bind_apply, eval_const, SM.pure_apply]
+      simp only []
+      rw [SM.bind_apply, evalList_nil, SM.pure_apply]
+      simp only [SM.pure_apply]
+      have := alloc_tail sc.budget 2 (.arr .iface [.f64 a, .f64 b]) {}
+      simp only [List.length_cons, List.length_nil] at this ⊢
+      rw [this]
+      have hlt : ¬ ((allocd {} ((2 : Nat) : Int) 2).memory ≥ sc.budget) := by
+        show ¬ ((0 : Int) + ((2 : Nat) : Int) ≥ sc.budget)
+        omega
+      rw [if_neg hlt]
+      rfl
+    rw [specRun_eq _ _ _ _ _ he]
+    rfl
+
+/-- … and then no `F` containing both constants is alias-free unless they are the same float -/
+theorem negzero_not_aliasfree (a b : Float) (hab : (a == b) = true) (hne : a ≠ b) (F : Val → Prop)
+    (ha : F (.f64 a)) (hb : F (.f64 b)) : ¬ AliasFree F := by
+  intro hF
+  have := hF (.f64 a) (.f64 b) ha hb (by simpa [constKeyEq] using hab)
+  exact hne (by injection this)
+
 /-- a successful run never pops an empty stack and leaves stack and scopes empty (`final_stack_singleton`,
     `final_scopes_empty` of C05), and a failing run fails with a class the Spec produces -/
 theorem run_result_partial (cfg : CompCfg) (n : Node) (cp : Compiled) (F : Val → Prop) (c : Cfg)
